@@ -893,13 +893,19 @@ impl<'g, 's> LRTable<'g, 's> {
                                     // For LR parsing non-empty reductions are
                                     // preferred over empty...
                                     if let ParserAlgo::LR = self.settings.parser_algo {
-                                        // ... so remove all empty reductions.
-                                        actions.retain(
-                                            |x| !matches!(x, Action::Reduce(_, len) if *len == 0),
-                                        );
-
-                                        if item.prod_len > 0 || actions.is_empty() {
-                                            // If current reduction is non-empty add it.
+                                        if item.prod_len > 0 {
+                                            // ... so remove all empty reductions
+                                            // and add the current one.
+                                            actions.retain(
+                                                |x| !matches!(x, Action::Reduce(_, len) if *len == 0),
+                                            );
+                                            actions.push(new_reduce.clone())
+                                        } else if reduces
+                                            .iter()
+                                            .all(|x| matches!(x, Action::Reduce(_, len) if *len == 0))
+                                        {
+                                            // Only empty reductions compete.
+                                            // This conflict can't be resolved.
                                             actions.push(new_reduce.clone())
                                         }
                                     } else {
